@@ -150,6 +150,13 @@ def mutants(wf, rng, limit):
                     body += " = 1" if lang == "yaql" else " == 1"
                 setter2(wrap(lang, body))
                 out.append(("unassigned_variable:%s:%s:%s" % (label, lang, form), "context", mm))
+                if label in ("when", "retry_when") and form in FORMS[lang]:
+                    # the same comparison written without blanks, alone and behind a status function
+                    for k, tmpl in enumerate(("%s=1", "succeeded() and %s=1") if lang == "yaql" else ("%s==1", "succeeded() and %s==1")):
+                        mm = copy.deepcopy(base)
+                        label2, setter2 = positions(mm)[idx]
+                        setter2(wrap(lang, tmpl % (form % "ghost_var")))
+                        out.append(("unassigned_variable:%s_compact%d:%s:%s" % (label, k, lang, form), "context", mm))
     # an entry that reads the very variable it assigns, which nothing upstream assigns
     for lang in ("yaql", "jinja"):
         for form in FORMS[lang]:
